@@ -77,7 +77,8 @@ def ChainOK : PathType → PathControlPoint P → List (PathControlPoint P) → 
       ChainOK t b rest
 
 /-- **the control-point lists the path string carries.** The first control point is the origin and carries a type;
-every other point has representable integral absolute coordinates; `ChainOK`. -/
+every other point has representable integral absolute coordinates; `ChainOK` — which is where finding **F17** (a point
+repeated at a segment start, the typed first point included) and consecutive Catmull segments are excluded. -/
 def RepPath (RP : P → Prop) (pos : Pos P) : List (PathControlPoint P) → Prop
   | [] => False
   | p0 :: rest =>
